@@ -30,9 +30,11 @@ Theorem C09_add_accepted : forall k a1 a2 a3 s s' r cbs cmds,
 Proof. exact add_accepted. Qed.
 Print Assumptions C09_add_accepted.
 
-(* a rejected request writes nothing and changes nothing *)
+(* a rejected request writes nothing and changes nothing - except that a command the full ring refused has used up its
+   correlation id *)
 Theorem C09_add_rejected : forall k a1 a2 a3 s s' e cbs cmds,
-  do_add k a1 a2 a3 s = (s', (Err e, cbs, cmds)) -> s' = s /\ cbs = [] /\ cmds = [].
+  do_add k a1 a2 a3 s = (s', (Err e, cbs, cmds)) ->
+  (s' = s \/ (ring_full s = true /\ e = IllegalState /\ s' = set_next_corr (next_corr s + 1) s)) /\ cbs = [] /\ cmds = [].
 Proof. exact add_rejected. Qed.
 Print Assumptions C09_add_rejected.
 
@@ -41,17 +43,17 @@ Theorem C09_add_fresh : forall s k, inv s -> lookup (next_corr s) (getm k s) = N
 Proof. exact fresh_id. Qed.
 Print Assumptions C09_add_fresh.
 
-(* over any history: the correlation ids of all commands written are consecutive from the first free id (hence pairwise
-   distinct and never reused), and every command carries the client id *)
+(* over any history: the correlation ids of all commands written are strictly increasing from the first free id on
+   (hence pairwise distinct and never reused), and every command carries the client id *)
 Theorem C09_command_ids : forall c ops s,
-  consecutive_from (next_corr s) (map cmd_id (all_cmds (snd (run c s ops)))) /\
+  increasing_from (next_corr s) (map cmd_id (all_cmds (snd (run c s ops)))) /\
   Forall (fun x => cmd_client x = client_id s) (all_cmds (snd (run c s ops))) /\
-  next_corr (fst (run c s ops)) = next_corr s + Z.of_nat (length (all_cmds (snd (run c s ops)))).
+  next_corr s + Z.of_nat (length (all_cmds (snd (run c s ops)))) <= next_corr (fst (run c s ops)).
 Proof. intros. apply run_cmd_ids. Qed.
 Print Assumptions C09_command_ids.
 
-Theorem C09_command_ids_distinct : forall n l, consecutive_from n l -> Forall (fun x => n <= x) l /\ NoDup l.
-Proof. exact consecutive_lt. Qed.
+Theorem C09_command_ids_distinct : forall n l, increasing_from n l -> Forall (fun x => n <= x) l /\ NoDup l.
+Proof. exact increasing_lt. Qed.
 Print Assumptions C09_command_ids_distinct.
 
 (* find_* while Awaiting: NotReady (destinations: false) within the driver time-out, NoResponse after it; nothing changes *)
@@ -120,9 +122,9 @@ Theorem C09_find_destination_error : forall c r s e,
 Proof. exact find_dest_errored. Qed.
 Print Assumptions C09_find_destination_error.
 
-(* dropping a held handle writes exactly one Remove* command with the registration id and a fresh correlation id, and
-   removes the registration; nothing else changes *)
-Theorem C09_release : forall k r h s, k <> KDest -> inv s -> held k r h s ->
+(* dropping a held handle (the ring accepts the command) writes exactly one Remove* command with the registration id and
+   the next correlation id, and removes the registration; nothing else changes *)
+Theorem C09_release : forall k r h s, k <> KDest -> inv s -> held k r h s -> ring_full s = false ->
   exists s' cbs,
     do_drop k r s = (s', (Ok [1], cbs, [Cmd (remove_cmd_type k) (client_id s) (next_corr s) [r]])) /\
     lookup r (getm k s') = None /\ next_corr s' = next_corr s + 1 /\
@@ -130,12 +132,31 @@ Theorem C09_release : forall k r h s, k <> KDest -> inv s -> held k r h s ->
 Proof. exact release_held. Qed.
 Print Assumptions C09_release.
 
-(* over any history exactly one ClientClose is written iff the history contains a close (none if one was sent before) *)
+(* the same drop while the driver does not read its command ring and the ring is full: no command; a subscription /
+   exclusive publication is released locally all the same, a publication / counter keeps its registration with a dead
+   handle (release_publication / release_counter return the error); nothing else changes *)
+Theorem C09_release_refused : forall k r h s, k <> KDest -> inv s -> held k r h s -> ring_full s = true ->
+  exists s' cbs, do_drop k r s = (s', (Ok [1], cbs, [])) /\ next_corr s' = next_corr s + 1 /\
+    (forall k' r', k' <> k \/ r' <> r -> lookup r' (getm k' s') = lookup r' (getm k' s)) /\
+    match k with
+    | KPub | KCtr => exists e, lookup r (getm k s') = Some e /\ e_status e = Dropped /\ e_obj e = None
+    | _ => lookup r (getm k s') = None
+    end.
+Proof. exact release_held_refused. Qed.
+Print Assumptions C09_release_refused.
+
+(* over any history the number of ClientClose commands is that of `close_writes`: one, written by the first close,
+   unless the ring refuses it at that moment; without refusals: exactly one iff the history contains a close *)
 Theorem C09_client_close_once : forall c ops s,
-  count_close (snd (run c s ops)) =
-    (if close_sent s then 0%nat else if existsb (fun o => match o with Close => true | _ => false end) ops then 1%nat else 0%nat).
+  count_close (snd (run c s ops)) = close_writes (close_sent s) (ring_full s) ops.
 Proof. intros. apply client_close_once. Qed.
 Print Assumptions C09_client_close_once.
+
+Theorem C09_client_close_once_no_refusal : forall ops, (forall b, In (SetRingFull b) ops -> b = false) ->
+  forall sent, close_writes sent false ops =
+    (if sent then 0%nat else if existsb (fun o => match o with Close => true | _ => false end) ops then 1%nat else 0%nat).
+Proof. exact close_writes_no_refusal. Qed.
+Print Assumptions C09_client_close_once_no_refusal.
 
 (* an answer whose id is not registered in the map of its kind - an unknown id or the id of a registration of another
    kind - changes nothing (the global counter callbacks fire for every counter of the driver, as the source says) *)
